@@ -120,6 +120,7 @@ func TestC02_OracleSafety(t *testing.T) {
 		}
 		receivers := []chain.Actor{bob, carol}
 		compass := "compass-1"
+		prevCompass := ""
 		epoch := 0
 		var log []string
 
@@ -215,6 +216,10 @@ func TestC02_OracleSafety(t *testing.T) {
 				}
 				if !(sum*100 > 66*total) {
 					t.Fatalf("claim %s observed with distinct voters %v holding %d of %d power (need > 66%%); stored vote list %v", id, voters, sum, total, a.Votes)
+				}
+				// claims take effect per bridge deployment: one reported for another deployment than the active one never does
+				if cl.CompassId != compass {
+					t.Fatalf("claim %s of deployment %q took effect while deployment %q is the active one (history %v)", id, cl.CompassId, compass, log)
 				}
 				// (b) consecutive nonce order
 				if cl.SkywayNonce != prevCursor+uint64(i)+1 {
@@ -348,6 +353,10 @@ func TestC02_OracleSafety(t *testing.T) {
 						vi2 = rapid.IntRange(1, len(m)-1).Draw(t, "variant")
 					}
 					cl := m[vi2]
+					if prevCompass != "" && rapid.IntRange(0, 4).Draw(t, "lateVoteForOldDeployment") == 0 {
+						// a slow relayer still reports an event of the previous bridge deployment
+						cl.compass = prevCompass
+					}
 					pvs = append(pvs, pv{v, cl})
 					txs = append(txs, c.MustSign(v.Actor, mkMsg(v, cl)))
 				}
@@ -539,6 +548,7 @@ func TestC02_OracleSafety(t *testing.T) {
 				if err := c.App.EvmKeeper.ActivateChainReferenceID(ctx, c02Chain, sc, "0x00000000000000000000000000000000000000c1", []byte(newID)); err != nil {
 					t.Fatalf("activate: %v", err)
 				}
+				prevCompass = compass
 				compass = newID
 				epoch++
 				resets++
